@@ -11,7 +11,10 @@ RULE = ("one evaluation = one job execution observed on a real StdScheduler by i
         "return within 3 s, the resumed job's own next fire time starts within 3 s); 3..6 jobs whose fire times are identical to the nanosecond (one shared custom trigger, equal "
         "custom triggers, cron `* * * * * *`) in the default mode, every execution lasting until all are in progress (barrier passed within 5 s); WorkerLimit n with all n workers "
         "busy with executions that ignore their context and a further due job in the loop's hand-off, then Stop() or cancellation of the Start context (max in flight <= n in "
-        "that very run, no restart). A scenario is non-trivial when more jobs are due than the bound "
+        "that very run, no restart). Third set (qh pool5, pool5.go): default mode, an execution that is waiting for its retry (Execute returned an error, MaxRetries 1/2, RetryInterval 1 s) "
+        "next to the job's own 50 ms trigger and a 50 ms sibling, failing executions {only the first, every one, every third}: at least 3 executions of the job itself and 3 of the sibling must be "
+        "entered in the 900 ms after the first failure returned (no retry attempt can fall into that time; an idle machine shows 17..18; fewer = re-run alone, a violation only if again). "
+        "A scenario is non-trivial when more jobs are due than the bound "
         "allows (always); distinct by (mode, n). No exact differential run against the Lean model (real interleavings are not replayable): the theorems cover "
         "every interleaving of the model, the tie is the regenerated shape of the dispatch switch / startWorkers / dispatch channel plus this run")
 
@@ -27,6 +30,8 @@ def run(ctx):
         for k in range(1, 4):
             results.append(generic.engine_run(ctx, "pool", ["--seed", str(ctx.seed * 1000 + k), "--n", "4"], "extra%d" % k, timeout=900))
         race_variant(ctx)
+    # an execution in its retry wait must not hold back the job's own next fire times (harness/cmd/qh/pool5.go)
+    results.append(generic.engine_run(ctx, "pool5", ["--seed", str(ctx.seed), "--n", "1" if not ctx.thorough else "4"], "retrywait", timeout=300))
     known_overlap(ctx, results)
     bad = generic.proof_cov(ctx, extra_trusted=[
         "Go channel semantics: a send on an unbuffered channel completes iff a receiver is ready (the model's hand-off step); `go` does not wait for the new goroutine",
